@@ -489,6 +489,37 @@ class Stats:
     def __init__(self):
         self.queries = self.unsat = self.sat = self.unknown = 0
         self.solver_s = 0.0
+        self.xchecks = 0          # property queries re-decided by independent solver binaries
+        self.xdisagree = []
+        self.xsolvers = set()
+        self._nprop = 0
+
+
+XSOLVERS = [("z3-4.8.12", ["z3", "-smt2", "-in", "-T:20"]), ("cvc5", ["cvc5", "--lang=smt2", "--tlimit=20000"])]
+
+
+def cross_check(stats, assertions, neg_cond, result, every):
+    """Two-solver diff (thorough tier): every `every`-th property query is dumped as SMT-LIB2 and
+    re-decided by the z3 4.8.12 and cvc5 binaries; a sat/unsat disagreement makes the run inconclusive."""
+    import subprocess
+    stats._nprop += 1
+    if not every or stats._nprop % every:
+        return
+    s = z3.Solver()
+    s.add(assertions)
+    s.add(neg_cond)
+    txt = "(set-logic QF_BV)\n" + s.to_smt2()
+    stats.xchecks += 1
+    for name, cmd in XSOLVERS:
+        try:
+            out = subprocess.run(cmd, input=txt, capture_output=True, text=True, timeout=40).stdout.split()
+        except Exception:
+            continue
+        ans = next((w for w in out if w in ("sat", "unsat", "unknown")), None)
+        if ans in ("sat", "unsat"):
+            stats.xsolvers.add(name)
+            if ans != str(result):
+                stats.xdisagree.append("%s says %s, z3 python API says %s" % (name, ans, result))
 
 
 class PathCtx:
@@ -627,6 +658,8 @@ class PathCtx:
             self.checks.append({"obl": obl, "key": key, "desc": desc, "result": "unsat", "trivial": True})
             return True
         r, m = self._check(z3.Not(c))
+        if self.limits.get("xcheck_every") and r != z3.unknown:
+            cross_check(self.stats, self.solver.assertions(), z3.Not(c), r, self.limits["xcheck_every"])
         rec = {"obl": obl, "key": key, "desc": desc, "result": str(r)}
         if r == z3.sat:
             rec["model"] = self.model_inputs(m)
